@@ -58,6 +58,11 @@ func c14OperandPaths() []*gen.Path {
 	return []*gen.Path{
 		gen.P('@'), gen.P('@', a), gen.P('@', gen.Wild()), gen.P('@', gen.Union(gen.Idx(0))), gen.P('@', gen.Multi("a", "b")),
 		gen.P('@', gen.Rec(a)), gen.P('$'), gen.P('$', a), gen.P('$', gen.Wild()),
+		// the operand's own path has a nested filter that refers to '$' (the document root, also
+		// below a function)
+		gen.P('@', gen.Filter(gen.Cmp("==", gen.OpP(gen.P('@')), gen.OpP(gen.P('$', gen.Name("b")))))),
+		gen.P('@', a, gen.Filter(gen.Exists(gen.P('$', gen.Name("b"))))),
+		gen.P('$', a, gen.Filter(gen.Cmp("!=", gen.OpP(gen.P('@')), gen.OpP(gen.P('$', gen.Name("b")))))),
 	}
 }
 
@@ -227,7 +232,7 @@ func init() {
 			"inside filters only single-atom filters are used, so short-circuit evaluation of && / || cannot hide a call; the relative order of calls of different occurrences is not compared (the property does not fix it)",
 		},
 		Bounds: map[string]string{
-			"quick":    "navigation prefixes of <=2 steps over the 16-step alphabet followed by every sequence of 1..2 functions (1..3 directly after $) out of 7; function chains of 1..2 inside filter operands (9 operand paths x 3 filter forms) after 5 prefixes; every document of <=4 nodes",
+			"quick":    "navigation prefixes of <=2 steps over the 16-step alphabet followed by every sequence of 1..2 functions (1..3 directly after $) out of 7; function chains of 1..2 inside filter operands (12 operand paths, three of them with a nested filter that refers to '$', x 3 filter forms) after 5 prefixes; every document of <=4 nodes",
 			"thorough": "prefixes of <=2 steps with 1..3 functions, 3 steps with one function; operand chains as in quick; every document of <=5 nodes",
 		},
 		New: newC14,
